@@ -1,5 +1,6 @@
 """C07 - CFDP File Data PDU carries offset, segment metadata and file data exactly (727.0-B-5 §5.3)."""
 from .pdus import *  # noqa: F403
+import copy
 from spacepackets.cfdp.pdu.file_data import get_max_file_seg_len_for_max_packet_len_and_pdu_cfg
 
 PROPERTY = "C07"
@@ -43,6 +44,21 @@ def h_pdu(ctx, cfg, var, twin=False):
                             [lambda: FileDataPdu.unpack(bytes(build(LenCtx(), "filedata", cfg, dict(ndata=3, nmeta=2)).pdu.pack())),
                              lambda: FileDataPdu.unpack(bytes(build(LenCtx(), "filedata", cfg, dict(ndata=0)).pdu.pack()))])
     pack_hands_out_fresh_buffers(ctx, pdu.pack, ref)
+    # the same PDU reached by assignment from other contents (metadata of another length / absent, data of another length)
+    vals = b.extra["vals"]
+    inits = [SegmentMetadata(ctx.int("i_state", 0, 3), ctx.octets("i_meta", (len(vals["sm"].metadata) + 2) if vals["sm"] is not None else 1)),
+             None if vals["sm"] is not None else SegmentMetadata(0, b"")]
+    for k, init in enumerate(inits):
+        for first in ("meta", "data"):
+            o = FileDataPdu(b.conf, FileDataParams(ctx.octets("i_data%d%s" % (k, first), 1 + k), vals["off"], copy.copy(init)))
+            o.pack()
+            if first == "meta":
+                o.segment_metadata, o.file_data = copy.copy(vals["sm"]), vals["data"]
+            else:
+                o.file_data, o.segment_metadata = vals["data"], copy.copy(vals["sm"])
+            e, raw3 = call(o.pack)
+            ctx.holds("metadata and file data assigned afterwards: pack == reference layout, packet_len == len(pack)",
+                      e is None and sym_and(raw3 == ref, o.packet_len == len(b.ref), o == pdu), exc_name(e))
     decoded_object_owns_its_data(ctx, FileDataPdu.unpack, b.ref, lambda x: sym_and(b.check(x), x == pdu, x.pack() == raw))
     if twin:
         ctx.holds("twin", raw != ref)
